@@ -821,6 +821,48 @@ func carbonCases(typ string, ndests int, rev, triples bool) []*kase {
 	return out
 }
 
+// zeroCases: every numeric option written explicitly as 0, alone, in both syntaxes. Zero is the
+// one value a parser can mistake for "not given": the entry must carry 0 (the option was
+// specified), or the configuration is refused with an error - never the default in silence.
+func zeroCases() []*kase {
+	var out []*kase
+	numeric := func(d optDoc) bool { return d.Unit == "int" || d.Unit == "ms" || d.Unit == "us" || d.Unit == "float" }
+	for _, typ := range []string{"sendAllMatch", "consistentHashing"} {
+		for _, d := range destDocs {
+			if numeric(d) {
+				k := carbonCase(typ, 1, []slot{{"d1", d, "0"}}, false, "zero")
+				k.AcceptError = true
+				out = append(out, k)
+			}
+		}
+	}
+	var bufDoc optDoc
+	for _, d := range gnDocs {
+		if d.Name == "bufSize" {
+			bufDoc = d
+		}
+	}
+	for _, d := range gnDocs {
+		if numeric(d) {
+			set := []slot{{"g", d, "0"}}
+			if d.Name != "bufSize" {
+				set = append([]slot{{"g", bufDoc, "7"}}, set...)
+			}
+			k := gnCase(set, false, "zero")
+			k.AcceptError = true
+			out = append(out, k)
+		}
+	}
+	for _, d := range aggDocs {
+		if numeric(d) {
+			k := aggCase("sum", []slot{{"a", d, "0"}}, false, false, "zero")
+			k.AcceptError = true
+			out = append(out, k)
+		}
+	}
+	return out
+}
+
 // --- grafanaNet
 
 const gnAddr = "http://127.0.0.1:1/metrics"
@@ -1748,6 +1790,8 @@ func main() {
 	carbon("consistentHashing", 2)
 	carbon("sendAllMatch", 2)
 	carbon("sendFirstMatch", 2)
+	baseline["zero"] = map[string]string{}
+	add("zero", zeroCases())
 
 	// Run: the cases are independent (own table, own spool directory per worker), so
 	// they are spread over workers; results are accounted and reported afterwards
